@@ -253,6 +253,13 @@ func evalCase(r *rep.Run, e *sys.Env, c Case, idx int) {
 				}
 				resp, ok := e.TC.BranchRollback(xid, g.Branches[0])
 				rbStatus = status(resp, ok)
+				if c.Kind == "twice" {
+					// the coordinator delivers the rollback a second time before the branch's phase one goes on
+					resp, ok = e.TC.BranchRollback(xid, g.Branches[0])
+					if st := status(resp, ok); st != rollbacked {
+						rbStatus = st
+					}
+				}
 			}
 		})
 		e.TC.Script = func(tc *faketc.TC, req message.RpcMessage) faketc.Answer {
@@ -377,6 +384,11 @@ func Enumerate(getEnv func() *sys.Env, thorough bool, yield func(idx int, c Case
 		// forgotten the rolled-back global transaction)
 		for k := 0; k < 6; k++ {
 			yield(idx, Case{b.s.ID, b.st, "late-phase-one", k, "report-fails"})
+			idx++
+		}
+		// ... and with the rollback delivered twice in a row at that position (an even number of early deliveries)
+		for k := 0; k < 6; k++ {
+			yield(idx, Case{b.s.ID, b.st, "late-phase-one", k, "twice"})
 			idx++
 		}
 	}
